@@ -85,6 +85,89 @@ fn components() -> serde_json::Value {
     })
 }
 
+/// `run` supervises the real batch in a child process so that a process-level death of the code
+/// under test (abort after a double panic, stack overflow, allocation failure) is still turned
+/// into a replayable VIOLATION instead of a bare crash.
+fn cmd_run_supervised(id: &str, tier: Tier) -> i32 {
+    use std::os::unix::process::ExitStatusExt;
+    let exe = std::env::current_exe().unwrap();
+    let dir = verif_dir().join("replays");
+    let _ = std::fs::create_dir_all(&dir);
+    let journal = dir.join(format!(".journal-{}", std::process::id()));
+    let status = std::process::Command::new(&exe)
+        .args(["run", id, tier.name()])
+        .env("SIMCHECK_INNER", "1")
+        .env("SIM_JOURNAL", &journal)
+        .stdout(unsafe { std::process::Stdio::from_raw_fd(libc::dup(OUT_FD)) })
+        .status();
+    let st = match status {
+        Ok(s) => s,
+        Err(e) => {
+            say!("HARNESS-ERROR: cannot start the batch process: {}", e);
+            return 2;
+        }
+    };
+    if let Some(c) = st.code() {
+        let _ = std::fs::remove_file(&journal);
+        return c;
+    }
+    let sig = st.signal().unwrap_or(0);
+    say!("batch process died with signal {}; looking for the run that kills it", sig);
+    // jobs the workers were in when the process died
+    let mut jobs: Vec<u64> = Vec::new();
+    if let Ok(b) = std::fs::read(&journal) {
+        for c in b.chunks(8) {
+            if c.len() == 8 {
+                let v = u64::from_le_bytes([c[0], c[1], c[2], c[3], c[4], c[5], c[6], c[7]]);
+                if v > 0 {
+                    jobs.push(v - 1);
+                }
+            }
+        }
+    }
+    let _ = std::fs::remove_file(&journal);
+    jobs.sort_unstable();
+    jobs.dedup();
+    let seed = seed_from_env();
+    for job in jobs {
+        let planlog = dir.join(format!(".planlog-{}-{}", std::process::id(), job));
+        let st = std::process::Command::new(&exe)
+            .args(["show", id, tier.name(), &job.to_string()])
+            .env("SIM_PLANLOG", &planlog)
+            .stdout(std::process::Stdio::null())
+            .stderr(std::process::Stdio::null())
+            .status();
+        let died = matches!(&st, Ok(s) if s.code().is_none());
+        if died {
+            if let Ok(text) = std::fs::read_to_string(&planlog) {
+                if let Ok(plan) = serde_json::from_str::<plan::Plan>(&text) {
+                    let path = dir.join(format!("{}-{}-{}-abort.json", id, seed, job));
+                    let rf = ReplayFile {
+                        format: 1,
+                        property: id.to_string(),
+                        signature: Signature {
+                            rule: "abort".into(),
+                            site: "process died while serving this connection".into(),
+                        },
+                        detail: format!("the process serving this plan died with signal {} (double panic / stack overflow / allocation failure)", sig),
+                        found_by: json!({"seed": seed, "tier": tier.name(), "job": job}),
+                        minimised_from_cmds: plan.cmds.len(),
+                        plan,
+                    };
+                    let _ = std::fs::write(&path, serde_json::to_string_pretty(&rf).unwrap());
+                    let _ = std::fs::remove_file(&planlog);
+                    say!("  abort / the process died (signal {}) while serving the plan of job {}", sig, job);
+                    say!("VIOLATION property={} replay={}", id, path.display());
+                    return 1;
+                }
+            }
+        }
+        let _ = std::fs::remove_file(&planlog);
+    }
+    say!("HARNESS-ERROR: the batch process died with signal {} and no single job reproduces it", sig);
+    2
+}
+
 fn cmd_run(id: &str, tier: Tier) -> i32 {
     let check = find_check(id);
     let known = Known::load();
@@ -292,6 +375,31 @@ fn cmd_replay(path: &str, quiet: bool) -> i32 {
             return 2;
         }
     };
+    if rf.signature.rule == "abort" && std::env::var("SIMCHECK_INNER").is_err() {
+        // the plan kills the process: replay it in a child
+        let exe = std::env::current_exe().unwrap();
+        let st = std::process::Command::new(exe)
+            .args(["replay", path, "--quiet"])
+            .env("SIMCHECK_INNER", "1")
+            .stdout(std::process::Stdio::null())
+            .stderr(std::process::Stdio::null())
+            .status();
+        return match st {
+            Ok(s) if s.code().is_none() => {
+                if !quiet {
+                    say!("replay: the process serving this plan died again");
+                }
+                say!("VIOLATION property={} replay={}", rf.property, path);
+                1
+            }
+            _ => {
+                if !quiet {
+                    say!("replay: the process survives this plan on this tree");
+                }
+                0
+            }
+        };
+    }
     let check = find_check(&rf.property);
     let known = Known::load();
     let out = sim::simulate(&rf.plan);
@@ -350,6 +458,7 @@ fn cmd_show(id: &str, tier: Tier, job: u64) -> i32 {
         want_sample: true,
         det_check: false,
         stop_on_fail: false,
+        planlog: std::env::var("SIM_PLANLOG").ok().map(Into::into),
     };
     let _ = Dump(check.as_ref()).0;
     check.run_job(&mut r, tier, job, &mut ctx);
@@ -386,6 +495,7 @@ fn cmd_selftest(n: u64) -> i32 {
                 want_sample: false,
                 det_check: true,
                 stop_on_fail: false,
+                planlog: None,
             };
             check.run_job(&mut r, Tier::Quick, job, &mut ctx);
             let mut shapes: Vec<u64> = ctx.stats.trace_shapes.iter().cloned().collect();
@@ -422,7 +532,13 @@ fn main() {
         }
     };
     let code = match args.get(1).map(|s| s.as_str()) {
-        Some("run") if args.len() >= 4 => cmd_run(&args[2], tier_of(&args[3])),
+        Some("run") if args.len() >= 4 => {
+            if std::env::var("SIMCHECK_INNER").is_ok() {
+                cmd_run(&args[2], tier_of(&args[3]))
+            } else {
+                cmd_run_supervised(&args[2], tier_of(&args[3]))
+            }
+        }
         Some("replay") if args.len() >= 3 => cmd_replay(&args[2], args.get(3).map(|s| s == "--quiet").unwrap_or(false)),
         Some("show") if args.len() >= 5 => cmd_show(&args[2], tier_of(&args[3]), args[4].parse().unwrap_or(0)),
         Some("selftest") => cmd_selftest(args.get(2).and_then(|s| s.parse().ok()).unwrap_or(50)),
